@@ -22,16 +22,16 @@ CHECKS = {
          "Every layer sequence of <= 3 tokens ending in a dense layer x every subset (size <= 2; thorough: all, depth 4) of droppable layers incl. layers inside feedback blocks x 1-3 epochs x with/without validation data; reported validation metrics, predictions and training flags compared with the dropout-free twin, also after the early-stopping exit, after call sequences validate/learn/learn/learn/validate, with 300 validation samples, and on data the network already fits exactly (training loss exactly 0).",
          "Dropout rate 0.5 with the library's fixed-seed mask; 3 training samples.", "4 C09", True),
  'C10': ("explicit-state exploration of training histories (sequences of learn() calls) with the weight-tying invariant evaluated in every state",
-         "220 block configurations (layer lists, bias, loops 1-3, 4 couplings, position) x the block's input/output skip flags x 6 optimizers x all action sequences of length <= 2 (thorough 3) over 4 learn() actions (one with exactly zero gradients); in every state all unrolled copies bit-identical and the reported parameter count counts shared parameters once.",
+         "220 block configurations (layer lists, bias, loops 1-3, 4 couplings, position) x the block's input/output skip flags x 6 optimizers x all action sequences of length <= 2 (thorough 3) over 4 learn() actions (one with exactly zero gradients); a coupled value that overflows while loss and gradients stay finite; in every state all unrolled copies bit-identical and the reported parameter count counts shared parameters once.",
          "History depth bound; data fixed per configuration.", "4 C10", True),
  'C11': ("exhaustive enumeration of block lists x loops x skip flags x accumulations on the real forward pass against a reference interpreter",
-         "12 block settings x 3 activations x loops 1-4 (1-9 for three settings) x 4 skip-flag combinations x 5 accumulations x dense-after on/off x 2 exact valuations + the blank sample, incl. dense -> block of spatial layers and max-pool inside a block; blocks near a fixed point of their repeated map (8-22 repetitions, iterates 1 ulp apart); a block without skips is bit-equal to the written-out plain network.",
+         "12 block settings x 3 activations x loops 1-4 (1-9 for three settings) x 4 skip-flag combinations x 5 accumulations x dense-after on/off x 2 exact valuations + the blank sample, incl. dense -> block of spatial layers and max-pool inside a block; blocks near a fixed point of their repeated map (8-22 repetitions, iterates 1 ulp apart); identity blocks on inputs near +-3e38; a block without skips is bit-equal to the written-out plain network.",
          "Reference interpreter in refmodel/net.rs is trusted; L <= 4 complete, L <= 9 / 22 for slices.", "4 C11", False),
  'C12': ("exhaustive enumeration of data-set sizes around the chunk size x heads x bodies x objectives x tolerances against per-element predict",
          "12 sizes (0..200, around 64 and 128; 256..1025 for a slice) x 4 heads x 5 bodies (incl. skip and loop connections) x 7 objectives x 4 tolerances: predict_batch element-wise bit-equal to predict in order, predict = last activation, validate = mean loss and accuracy by the three rules, repeated inside pools of 1 and 2 workers; soft-max heads with tied maxima under an interval oracle (the statement leaves the tie-break open).",
          "Per-sample loss values come from the library's objective (C06 decides them).", "4 C12", False),
  'C13': ("exhaustive enumeration of all validation-loss trajectories over {rise,fall,equal} x tolerances, driving the real learn() black-box",
-         "All 3^(E-1) trajectories for E <= 6 (thorough 8) x tolerances 1-5 are realised exactly by the unmodified learn() (steering by one-hot AE training on a linear unit); history lengths and the stop predicate checked on what learn() returned; every commanded pattern is re-derived from the returned vector; tolerances 6-20 on near-monotone trajectories; epoch budgets up to i32::MAX on strictly rising trajectories (watchdog); runs after an earlier learn() call on the same network; a third of the trajectories at loss 2^-20 (steps 2^-27) and a third at loss 2^20 (steps of one ulp); print frequencies varied.",
+         "All 3^(E-1) trajectories for E <= 6 (thorough 8) x tolerances 1-5 are realised exactly by the unmodified learn() (steering by one-hot AE training on a linear unit); history lengths and the stop predicate checked on what learn() returned; every commanded pattern is re-derived from the returned vector; tolerances 6-20 on near-monotone trajectories; epoch budgets up to i32::MAX on strictly rising trajectories (watchdog); runs after an earlier learn() call on the same network; trajectories starting at a loss of exactly 0; a third of the trajectories at loss 2^-20 (steps 2^-27) and a third at loss 2^20 (steps of one ulp); print frequencies varied.",
          "Stop rule read as the window of the last T recorded losses being strictly increasing.", "4 C13", True),
  'C16': ("exhaustive enumeration of networks x index pairs x accumulations and of all ordered pairs of connect calls, forward vs reference interpreter and backward vs dual-number derivative",
          "All sequences of depth 2-3 (thorough 4) over 8 count-preserving layer types (incl. a max-pool and a block of spatial layers, as source and as target) from a flat and a spatial input x every a <= b x 5 accumulations; every ordered pair of connect calls (acceptance rules, both connections visible), every first connection followed by a call with reversed indices, three connections on a 5-layer network; Network::backward with additive skips vs the derivative of the reference function.",
@@ -40,10 +40,10 @@ CHECKS = {
          "6 base networks x every shape-matching range x k 1-3 (4-9 for two ranges each) x 5 accumulations x input skips x 2 valuations, pairs of disjoint ranges in both registration orders; loops near a fixed point of the repeated map (8-22 iterations, iterates 1 ulp apart, exact arithmetic); overwrite loops bit-equal to the plain unrolled network.",
          "k <= 3 complete; k <= 9 / 22 for slices.", "4 C17", False),
  'C03': ("explicit-state exploration of optimizer update histories on the real optimizer (history tree, bit-exact rank/slot differentials, reference recurrences)",
-         "Every gradient sequence over an 11-value alphabet up to the depth bound x every non-decreasing step-number sequence x 40 hyper-parameter settings (32 around the defaults, 8 away from them incl. epsilon 0.125 and momentum 0) x 3 tensor ranks is executed on the real create->validate->update API; each reached parameter is compared with the documented recurrence, across ranks (bit-exact) and across slot interleavings (bit-exact); 2048-step run-length histories for slow numeric drift.",
+         "Every gradient sequence over an 11-value alphabet up to the depth bound x every non-decreasing step-number sequence x 43 hyper-parameter settings (32 around the defaults, 11 away from them incl. epsilon 0.125 and 1e-12, momentum 0) x 3 tensor ranks is executed on the real create->validate->update API; each reached parameter is compared with the documented recurrence, across ranks (bit-exact) and across slot interleavings (bit-exact); 2048-step run-length histories for slow numeric drift.",
          "Trusts the 5 scalar reference recurrences (refmodel/optim.rs) and IEEE f32/f64 of the host; gradients outside the alphabet and depth > bound are not covered except through the run-length histories.", "4 C03", True),
  'C05': ("stateless model checking of schedules: choice-point DFS over a scheduler model of rayon (thread counts x steal patterns x leaf interleavings, deviation-bounded by regions) running the unchanged library, bound to real rayon by result equality and partition inclusion",
-         "The unchanged library is compiled against a model of rayon 1.10's adaptive splitter and work stealing; every schedule with <= 1 (thorough 2) deviating parallel regions per run is executed for pool sizes 1,2,3,4,8 (16,64) on a driver with every layer kind, batch sizes 2/3/5 (17 and 32 with a choice cap), 65/130 (321/641) evaluation inputs, a 96->70->3 dense network and a feedback block with input skips; losses, metrics, final weights and predict_batch outputs must be bit-identical to the canonical run, which itself must reproduce its bits over 12 (48) freshly built instances (a sample of std's per-map hash seeds, listed with a scan of every HashMap iteration in src/). The model is validated against the real pool: identical results for 5-7 pool sizes in two calling contexts, and every leaf partition observed under real rayon is one the model generates.",
+         "The unchanged library is compiled against a model of rayon 1.10's adaptive splitter and work stealing; every schedule with <= 1 (thorough 2) deviating parallel regions per run is executed for pool sizes 1,2,3,4,8 (16,64) on a driver with every layer kind, batch sizes 2/3/5 (17 and 32 with a choice cap), 65/130 (321/641) evaluation inputs, a 96->70->3 dense network, a feedback block with input skips and a network whose skip connections share a source; losses, metrics, final weights and predict_batch outputs must be bit-identical to the canonical run, which itself must reproduce its bits over 96 (1024) freshly built instances, each under its own hash salt: through the salted-hasher hook the iteration orders of the maps inside feedback blocks are an enumerated choice (all 24 orders of a 4-key map, 62 / all 120 of a 5-key map); for the two std maps of Network the instances are a sample of hash seeds, listed with a scan of every HashMap iteration in src/. The model is validated against the real pool: identical results for 5-7 pool sizes in two calling contexts, and every leaf partition observed under real rayon is one the model generates.",
          "Leaf granularity (sound without interior mutability: source scan recorded in the evidence); flat_map inner iterators sequential; memory-ordering effects inside rayon are outside the model.", "4 C05", True),
  'C06': ("exhaustive enumeration of (prediction,target) tuples over boundary-including alphabets against the documented formulas, rank/clamp differentials, dual-number derivative",
          "All tuples of up to 3 (prediction,target) pairs over the per-objective in-domain alphabets (including exact 0 and 1; near-equal values, +-0 and +-1e-8 in tuples of <= 2), both ranks, all clamps incl. one-sided and unbounded: loss and gradient against the documented formulas, clamped = clamp(unclamped) bit-exact, 3-D = vector bit-exact, gradient = derivative of the reference loss for AE/MSE/BCE/KL.",
